@@ -159,3 +159,12 @@ Fixpoint for_ret {A S T} (l : list A) (s : S) (f : S -> A -> res (S + T)) : res 
   | [] => Ok (inl s)
   | x :: r => bind (f s x) (fun o => match o with inl s' => for_ret r s' f | inr v => Ok (inr v) end)
   end.
+
+(* int(b) for a bytes object b of length <= 1 (packByte's int(fmt[i:i+1])): one ASCII digit, else
+   ValueError; longer strings (signs, spaces, several digits) are outside the modelled domain *)
+Definition py_int_bytes (b : list Z) : res Z :=
+  match b with
+  | [] => Err ValueError
+  | [c] => if (48 <=? c) && (c <=? 57) then Ok (c - 48) else Err ValueError
+  | _ => Err Unmodelled
+  end.
